@@ -574,7 +574,196 @@ func existsFalseEdges(fn *ssa.Function, r respRoot, existsFn, recorder *ssa.Func
 			detail = "no element of the whole slice reports an error (library search)"
 		}
 	}
+	// the test delegated to a helper that reports the response's error member as a Go error
+	// (`if err := hresp.rpcError(tag); err != nil`, `batchError(tag, resps)`): a nil result must
+	// imply Exists()==false (for a slice: of every element)
+	isRoot := func(v ssa.Value) bool {
+		return v == r.val || sameVar(v, r.val) || (!r.batch && r.owns(v))
+	}
+	for _, ci := range callsIn(fn) {
+		call, ok := ci.(*ssa.Call)
+		if !ok {
+			continue
+		}
+		h := staticCallee(call)
+		if h == nil || h == existsFn || h.Blocks == nil || !isRepoFunc(h) {
+			continue
+		}
+		e, has := errResult(call)
+		if !has || e == nil {
+			continue
+		}
+		for k, a := range call.Call.Args {
+			hit, idx := derivesFromResp(a, isRoot)
+			if !hit || !nilMeansNoRPCError(h, k, existsFn, 0) {
+				continue
+			}
+			isNil, nonNil := nilTestEdges(e)
+			armOK := len(nonNil) > 0
+			for _, ed := range nonNil {
+				if g, _ := errorArmLeaves(fn, ed, isNil, recorder); !g {
+					armOK = false
+				}
+			}
+			if !armOK {
+				detail = "the error reported by " + fnName(h) + " does not leave with an error"
+				continue
+			}
+			if r.batch && idx != nil {
+				hdrExit := loopExitEdges(fn, idx, r.val)
+				if len(hdrExit) == 0 {
+					detail = "the error member is tested on one element only, not in a loop over the whole slice"
+					continue
+				}
+				out = append(out, hdrExit...)
+				detail = "loop over every element completed (" + fnName(h) + ")"
+				continue
+			}
+			out = append(out, isNil...)
+			detail = "tested through " + fnName(h)
+		}
+	}
 	return out, detail
+}
+
+// derivesFromResp: v is the response (isRoot), its embedded Error member, or –
+// with the index returned – an element of the response slice / that element's Error member.
+func derivesFromResp(v ssa.Value, isRoot func(ssa.Value) bool) (bool, ssa.Value) {
+	var idx ssa.Value
+	for i := 0; i < 10; i++ {
+		v = stripConv(v)
+		if isRoot(v) {
+			return true, idx
+		}
+		switch x := v.(type) {
+		case *ssa.UnOp:
+			if x.Op != token.MUL {
+				return false, nil
+			}
+			v = x.X
+		case *ssa.FieldAddr:
+			f, _ := fieldOf(x)
+			if f == nil || !f.Embedded() || !repoNamedIs(f.Type(), "jrpc2", "Error") {
+				return false, nil
+			}
+			v = x.X
+		case *ssa.Field:
+			f, _ := fieldOf(x)
+			if f == nil || !f.Embedded() || !repoNamedIs(f.Type(), "jrpc2", "Error") {
+				return false, nil
+			}
+			v = x.X
+		case *ssa.IndexAddr:
+			idx = x.Index
+			v = x.X
+		case *ssa.Alloc:
+			cv := cellValue(x)
+			if cv == nil {
+				return false, nil
+			}
+			v = cv
+		default:
+			return false, nil
+		}
+	}
+	return false, nil
+}
+
+// nilMeansNoRPCError: if h returns a nil error, Error.Exists() of the response
+// handed over as argument k was false (of every element, if it is a slice).
+func nilMeansNoRPCError(h *ssa.Function, k int, existsFn *ssa.Function, depth int) bool {
+	if depth > 3 || k >= len(h.Params) {
+		return false
+	}
+	res := h.Signature.Results()
+	if res.Len() == 0 || !isErrorType(res.At(res.Len()-1).Type()) {
+		return false
+	}
+	p := h.Params[k]
+	_, isSlice := p.Type().Underlying().(*types.Slice)
+	isRoot := func(v ssa.Value) bool { return v == ssa.Value(p) }
+	var admit []Edge
+	for _, ci := range callsIn(h) {
+		call, ok := ci.(*ssa.Call)
+		if !ok {
+			continue
+		}
+		cal := staticCallee(call)
+		if cal == nil {
+			continue
+		}
+		var cand []Edge
+		var idx ssa.Value
+		switch {
+		case cal == existsFn:
+			hit, ix := derivesFromResp(call.Call.Args[0], isRoot)
+			if !hit {
+				continue
+			}
+			_, f := boolEdges(call)
+			cand, idx = f, ix
+		case cal.Blocks != nil && isRepoFunc(cal):
+			e, has := errResult(call)
+			if !has || e == nil {
+				continue
+			}
+			for j, a := range call.Call.Args {
+				hit, ix := derivesFromResp(a, isRoot)
+				if hit && nilMeansNoRPCError(cal, j, existsFn, depth+1) {
+					// the result may be returned as it is (`return f(x)`) or tested
+					isNil, _ := nilTestEdges(e)
+					cand, idx = isNil, ix
+					if len(isNil) == 0 {
+						// returned untested: every return of h that hands this call's error on is fine;
+						// model it as: the call dominates those returns and is their error value
+						passThrough := true
+						for _, r := range returnsOf(h) {
+							vals := returnValues(r)
+							if vals[len(vals)-1] != e && !definitelyNonNilError(vals[len(vals)-1], nil) {
+								passThrough = false
+							}
+						}
+						if passThrough && !isSlice {
+							return true
+						}
+					}
+				}
+			}
+		}
+		if len(cand) == 0 {
+			continue
+		}
+		if isSlice {
+			if idx == nil {
+				admit = append(admit, cand...) // the whole slice handed on
+				continue
+			}
+			admit = append(admit, loopExitEdges(h, idx, p)...)
+			continue
+		}
+		admit = append(admit, cand...)
+	}
+	if len(admit) == 0 {
+		return false
+	}
+	var pf *pathFacts
+	for _, r := range returnsOf(h) {
+		vals := returnValues(r)
+		last := vals[len(vals)-1]
+		if definitelyNonNilError(last, nil) {
+			continue
+		}
+		if pf == nil {
+			pf = newPathFacts(h)
+		}
+		if st := pf.At(r); st == nil || st.knownNonNil(last) {
+			continue
+		}
+		if !guardedByEdges(h, r, admit) {
+			return false
+		}
+	}
+	return true
 }
 
 // loopExitEdges: idx is the induction variable of a loop `for idx < len(s)`;
